@@ -97,6 +97,13 @@ def r2_add_remove(idx, r):
     rem = next((c for c in iter_calls(rm.node) if _call(c, "self.remove")), None)
     st = fl.state_before(rem) if rem is not None else None
     r.require(st is not None and st.get("pop", (0, 0))[0] >= 1, "Core.removeAssembly:pop-before-remove", rm, node=rem, msg="the locator key must be popped before remove() replaces the assembly's locator with a detached copy")
+    # the assembly leaves the core (parent cleared, locator detached) BEFORE it is handed to the pool: the other way round,
+    # remove() clears the parent link and detaches the locator that the pool has just set
+    for dnode in [n for n in ast.walk(rm.node) if "disposed" in ev2(n) and isinstance(n, ast.Call) and call_attr(n) == "add"]:
+        stb = fl.state_before(dnode) or {}
+        r.require(stb.get("remove", (0, 0))[0] >= 1, "Core.removeAssembly:remove-before-pooling", rm, node=dnode,
+                  msg="the assembly is added to the spent fuel pool while it is still a child of the core; the later self.remove() then clears its parent and detaches the location "
+                      "the pool gave it: the pool lists a child whose parent is None")
     aux = idx.method(CORE, "_removeListFromAuxiliaries")
     p = aux.params()[1]
     dels = [norm(s.node) for s in iter_stores(aux.node) if s.kind == "subscript-del"]
